@@ -471,19 +471,51 @@ func c17FailClosed(c *Ctx, reg *guardedGlobal) {
 					continue
 				}
 			}
+			if c17LookupViaHelper(v, named, reg.G, 0) {
+				continue
+			}
 			ok = false
 			why = "returns " + v.String() + ", which is neither the registry lookup nor EmptyDecoration"
 		}
 		r.Check("R17.4", FuncName(named), fmt.Sprintf("return #%d is the lookup result or EmptyDecoration", i+1), ret.Pos(), ok, why)
 	}
 	// the name is looked up / stored exactly as given
+	nlk := 0
 	eachInstr(named, func(in ssa.Instruction) {
 		if lk, ok := in.(*ssa.Lookup); ok {
 			if f, base := loadedField(lk.X); f != nil && base == ssa.Value(reg.G) {
+				nlk++
 				r.Check("R17.4", FuncName(named), "the registry is consulted with the name exactly as given", in.Pos(), lk.Index == ssa.Value(named.Params[0]), "the key is transformed before the lookup: a name can be registered and listed yet never found, or an unregistered spelling can resolve")
 			}
 		}
+		// ... or by a helper handed the name
+		call, isCall := in.(*ssa.Call)
+		if !isCall {
+			return
+		}
+		h := call.Call.StaticCallee()
+		if h == nil || h.Blocks == nil || !inModule(h) || len(call.Call.Args) != len(h.Params) {
+			return
+		}
+		eachInstr(h, func(x ssa.Instruction) {
+			lk, ok := x.(*ssa.Lookup)
+			if !ok {
+				return
+			}
+			if f, base := loadedField(lk.X); f == nil || base != ssa.Value(reg.G) {
+				return
+			}
+			nlk++
+			good := false
+			for k, par := range h.Params {
+				if lk.Index == ssa.Value(par) && call.Call.Args[k] == ssa.Value(named.Params[0]) {
+					good = true
+				}
+			}
+			r.Check("R17.4", FuncName(h), "the registry is consulted with the name exactly as given", x.Pos(), good, "the key is transformed before the lookup, or is not the name Named was given")
+		})
 	})
+	r.Floor("R17.4", "registry lookups on behalf of Named", nlk, 1)
 	if regFn := c.Func("texttable/decoration", "RegisterDecorationName"); regFn != nil {
 		eachInstr(regFn, func(in ssa.Instruction) {
 			if mu, ok := in.(*ssa.MapUpdate); ok {
@@ -781,4 +813,60 @@ func errIffEmpty(fn *ssa.Function, d ssa.Value, empty *ssa.Global) (bool, string
 		}
 	}
 	return true, ""
+}
+
+// c17LookupViaHelper: v (in fn) is a result of a module helper whose every return hands back, in that position, the
+// registry's own lookup result (value or comma-ok flag position 0 only).
+func c17LookupViaHelper(v ssa.Value, fn *ssa.Function, g *ssa.Global, depth int) bool {
+	if depth > 2 {
+		return false
+	}
+	idx := 0
+	var call *ssa.Call
+	switch x := v.(type) {
+	case *ssa.Extract:
+		call, _ = x.Tuple.(*ssa.Call)
+		idx = x.Index
+	case *ssa.Call:
+		call = x
+	}
+	if call == nil {
+		return false
+	}
+	h := call.Call.StaticCallee()
+	if h == nil || h.Blocks == nil || !inModule(h) {
+		return false
+	}
+	rets := returnsOf(h)
+	if len(rets) == 0 {
+		return false
+	}
+	for _, ret := range rets {
+		rv := results(ret)
+		if idx >= len(rv) {
+			return false
+		}
+		for _, e := range phiClosure(rv[idx]) {
+			okE := false
+			if ex, isEx := e.(*ssa.Extract); isEx && ex.Index == 0 {
+				if lk, isLk := ex.Tuple.(*ssa.Lookup); isLk {
+					if f, base := loadedField(lk.X); f != nil && base == ssa.Value(g) {
+						okE = true
+					}
+				}
+			}
+			if lk, isLk := e.(*ssa.Lookup); isLk {
+				if f, base := loadedField(lk.X); f != nil && base == ssa.Value(g) {
+					okE = true
+				}
+			}
+			if !okE && c17LookupViaHelper(e, h, g, depth+1) {
+				okE = true
+			}
+			if !okE {
+				return false
+			}
+		}
+	}
+	return true
 }
